@@ -1,6 +1,6 @@
 /-
   C02 round 4 — the TYPE of a condition value decides "scalar or list", never its KIND alone.
-  Model/CondValue.lean: `mapArm` / `colArm` (statement.go BuildCondition), `eqText` / `neqText` / `addVarText`
+  Model/CondValue.lean: `mapArm` / `colArm` (statement.go BuildCondition), `cvEqText` / `cvNeqText` / `cvAddVarText`
   (clause/expression.go Eq.Build, Neq.Build; statement.go AddVar); guards = regenerated `Gen.mapSliceArmGuards`.
 -/
 import GormModel.Lemmas.Where
@@ -42,28 +42,28 @@ theorem C02_map_arm_non_list (g : MapSliceGuards) (v : GoVal) (hk : v.kind.isLis
 theorem C02_col_value_is_one_eq (v : GoVal) : colArm v = .eq := rfl
 
 /-- a Valuer reaches the database as ONE bound parameter -/
-theorem addVarText_valuer (v : GoVal) (h : v.dv = true ∨ v.gv = true) : addVarText v = "?" := by
-  unfold addVarText
+theorem addVarText_valuer (v : GoVal) (h : v.dv = true ∨ v.gv = true) : cvAddVarText v = "?" := by
+  unfold cvAddVarText
   rcases h with h | h <;> cases hg : v.gv <;> simp_all
 
 /-- … so the unit reads `col = ?` (`col IS NULL` when the Valuer yields nil), its negation `col <> ?` / `IS NOT NULL`:
     never an IN list, never more than one placeholder -/
 theorem C02_valuer_text (col : String) (v : GoVal) (h : v.dv = true ∨ v.gv = true) (hw : v.wellTyped = true) :
-    eqText col v = col ++ (if v.isNil then " IS NULL" else " = ?") ∧
-    neqText col v = col ++ (if v.isNil then " IS NOT NULL" else " <> ?") := by
+    cvEqText col v = col ++ (if v.isNil then " IS NULL" else " = ?") ∧
+    cvNeqText col v = col ++ (if v.isNil then " IS NOT NULL" else " <> ?") := by
   have hl : v.eqListed = false := by
     cases hl : v.eqListed
     · rfl
     · simp [GoVal.wellTyped, hl] at hw
       rcases h with h | h <;> simp_all
-  simp [eqText, neqText, hl, addVarText_valuer v h]
+  simp [cvEqText, cvNeqText, hl, addVarText_valuer v h]
 
-/-- the model's two renderings agree: `eqText` is the text of the WHERE model's `Eq` atom with `valShape`, whenever the value
+/-- the model's two renderings agree: `cvEqText` is the text of the WHERE model's `Eq` atom with `valShape`, whenever the value
     is bound as one parameter (or is a listed slice with at least two … any number of elements) -/
-theorem eqText_eq_atom_text (col : String) (id : Nat) (v : GoVal) (h1 : v.oneVar = true) :
-    eqText col v = ({ col := col, kind := .eq, val := v.valShape, id := id } : Atom).text := by
-  have h1' : addVarText v = "?" := by simpa [GoVal.oneVar] using h1
-  unfold eqText GoVal.valShape Atom.text
+theorem cvEqText_eq_atom_text (col : String) (id : Nat) (v : GoVal) (h1 : v.oneVar = true) :
+    cvEqText col v = ({ col := col, kind := .eq, val := v.valShape, id := id } : Atom).text := by
+  have h1' : cvAddVarText v = "?" := by simpa [GoVal.oneVar] using h1
+  unfold cvEqText GoVal.valShape Atom.text
   cases hl : v.eqListed
   · cases hn : v.isNil <;> simp [h1']
   · cases hlen : v.len with
